@@ -234,7 +234,16 @@ impl Monitor for C11 {
         let exact = rep % 2 == 1 && n <= 16;
         let c = make_case(vi, n, &mut rng);
         let len = if exact { 40 + 3 * c.n.min(16) } else { (6 * c.n + 100).max(cfg.tier.pick(500, 20_000)).min(cfg.tier.pick(2_000, 20_000)) };
-        let xs = gen::gen(class, c.n, len, &mut rng);
+        let mut xs = gen::gen(class, c.n, len, &mut rng);
+        // one f64 trial in four in units of 2^10 or 2^20: PFE (whose formula contains the absolute
+        // terms +1 and N^2) and any shortcut taken "for large moves" see another regime there
+        if !exact && rng.chance(1, 4) {
+            let s = 2f64.powi(*rng.pick(&[10, 20]));
+            for x in xs.iter_mut() {
+                *x *= s;
+            }
+            out.count("f64_trials_in_large_units", 1);
+        }
         out.key(mix(hash_str(&format!("{}{}", c.spec.show(), exact)), gen::hash_f64s(&xs)));
         if idx % 211 == 0 {
             out.sample(format!("{} at {} on {:?}: {} values; first {:?}", c.spec.show(), if exact { "Xq" } else { "f64" }, class, xs.len(), &xs[..xs.len().min(8)]));
